@@ -263,7 +263,8 @@ Print Assumptions C20_file_shared_key_refuted.
 
 (* The writer (writearlpackedbit since /repo 6a4afc6; impl_write = pack every field with the
    exponent pack2d chooses, lay the records out as the format prescribes): for EVERY in-memory file
-   (any number of periods, levels, variables, any grid that holds the header; the same variables
+   (any number of periods, levels, variables, any grid up to 26999 x 26999 that holds the header,
+   sizes of 1000 and more with the thousands letters in the grid id; the same variables
    in every period and no key both 3-D and 4-D, which is what one dictionary of variables gives)
    the reference decoder returns the content, the reader model returns the ideal view of it, and
    EVERY field comes back within half a quantum, first element exact, no code outside 0..255. *)
@@ -314,8 +315,13 @@ Proof. vm_compute. repeat split; try reflexivity; discriminate. Qed.
 (* a 1003 x 2 grid ("A@") and a 2 x 2005 grid ("@B"): well formed, decoded, read by the reader model *)
 Definition ex_large := [Period w_time [65; 64] w_fixed 1003 2 [32; 50] (repeat 32 (2006 - 124)) [Lvl w_sfc [w_var k_PRSS w_v0 2006]]].
 Definition ex_large2 := [Period w_time [64; 66] w_fixed 2 2005 [32; 50] (repeat 32 (4010 - 124)) [Lvl w_sfc [w_var k_PRSS w_v0 4010]]].
+Definition ex_win_large : winput :=
+  WInput [65; 64] w_fixed 1003 2 [32; 50]
+    [WPeriod w_time [(w_sfc, [WField k_PRSS 1 1 w_prec w_v0 (repeat (repeat 0 1003) 2)])]].
 Example C20_file_large_grid :
-  forallb wf_period ex_large = true /\ dec (enc ex_large) = Some ex_large
+  wf_winput ex_win_large = true
+  /\ impl_read std_sizes (impl_write_fixed ex_win_large) = spec_view (write_content ex_win_large)
+  /\ forallb wf_period ex_large = true /\ dec (enc ex_large) = Some ex_large
   /\ impl_read std_sizes (enc ex_large) = spec_view ex_large /\ spec_view ex_large <> None
   /\ forallb wf_period ex_large2 = true /\ impl_read std_sizes (enc ex_large2) = spec_view ex_large2.
 Proof. vm_compute. repeat split; try reflexivity; discriminate. Qed.
